@@ -8,7 +8,7 @@ import threading
 import time
 import weakref
 
-from vlib import core, gen, fixture, wire
+from vlib import core, gen, fixture, wire, yieldinj
 
 PROPERTY = "C13"
 LEVEL = "fault_enumeration"
@@ -19,7 +19,7 @@ RULE = ("endings = {orderly release, close (FIN and RST) after every byte offset
         "resource or held a session instance")
 ASSUMPTIONS = ["'at quiescence' = after the disconnect hook was observed and the worker/selector slot count settled, awaited with a 10 s watchdog (expiry = inconclusive unless a server thread died)",
                "connections whose handshake was refused are only required to see <= 1 hook call and a closed socket"]
-REQUIRED_REACH = ["ending_ok", "offset_endings", "resources_closed_once", "session_instances_dropped", "witness_unaffected", "timeout_endings", "security_endings", "callback_endings"]
+REQUIRED_REACH = ["ending_ok", "offset_endings", "resources_closed_once", "session_instances_dropped", "witness_unaffected", "timeout_endings", "security_endings", "callback_endings", "churn_connections_checked", "injected_yields"]
 SHARD_TIMEOUT = {"quick": 240, "thorough": 3000}
 
 
@@ -46,7 +46,7 @@ class World:
             return self.conns.setdefault(serial, {"tracked": [], "untracked": [], "session": None, "conn": None})
 
 
-def make_env(P, servertype, commtimeout, linger=30.0):
+def make_env(P, servertype, commtimeout, linger=30.0, pool=(2, 40)):
     world = World()
     ctx = P.callcontext.current_context
 
@@ -89,7 +89,7 @@ def make_env(P, servertype, commtimeout, linger=30.0):
             e["session"] = weakref.ref(self)
             return ctx.client._vserial
 
-    fx = fixture.Fixture(servertype=servertype, COMMTIMEOUT=commtimeout, THREADPOOL_SIZE=40, THREADPOOL_SIZE_MIN=2, ITER_STREAMING=True, ITER_STREAM_LINGER=linger)
+    fx = fixture.Fixture(servertype=servertype, COMMTIMEOUT=commtimeout, THREADPOOL_SIZE=pool[1], THREADPOOL_SIZE_MIN=pool[0], ITER_STREAMING=True, ITER_STREAM_LINGER=linger)
     fx.register(Svc(), "svc")
     fx.register(Sess, "sess")
     return fx, world
@@ -325,6 +325,100 @@ def run_case(fx, world, c, rec, r, sername):
     fx.wait_until(lambda: fx.live_connection_count() == base_live, 10.0)
 
 
+# ---- churn: connections ending while others are being accepted (free-running threads, seeded yield injection) -------------------------
+class Churner(threading.Thread):
+    def __init__(self, fx, sername, plan):
+        super().__init__(daemon=True)
+        self.fx, self.sername, self.plan = fx, sername, plan
+        self.serials = []       # (serial, ntrack, ending)
+        self.dropped = []       # connections the daemon accepted and then dropped without an answer
+        self.error = None
+
+    def run(self):
+        P = self.fx.P
+        ser = P.serializers.serializers[self.sername]
+        try:
+            for ntrack, ending in self.plan:
+                c = wire.RawClient(self.fx.location, timeout=8.0)
+                try:
+                    m = c.handshake("svc", ser)
+                except (EOFError, OSError) as x:
+                    self.dropped.append(repr(x))
+                    c.close()
+                    continue
+                if m.type != wire.CONNECTOK:
+                    c.close()
+                    continue
+                r = c.invoke("svc", "setup", (ntrack, 0), {}, ser)
+                serial = ser.loads(r.data)
+                self.serials.append((serial, ntrack, ending))
+                if ending == "half":
+                    c.send(wire.encode(wire.INVOKE, 0, 9, ser.serializer_id, b"x" * 30)[:21])
+                c.close(rst=(ending == "rst"))
+        except Exception as x:
+            self.error = x
+
+
+def run_churn(fx, world, rec, r, sername, nthreads, rounds, plans=None):
+    if plans is None:
+        plans = [[(r.choice([0, 1, 2]), r.choice(["fin", "fin", "rst", "half"])) for _ in range(rounds)] for _ in range(nthreads)]
+    nthreads = len(plans)
+    pay = {"churn": plans, "servertype": fx.servertype, "serializer": sername}
+    ths = [Churner(fx, sername, pl) for pl in plans]
+    for t in ths:
+        t.start()
+    for t in ths:
+        t.join(60)
+        if t.is_alive():
+            rec.inconc("churn client did not finish within the watchdog")
+            return False
+    for t in ths:
+        if t.error is not None:
+            rec.inconc("churn client failed in the harness: %r" % (t.error,))
+            return False
+    quiet = fx.wait_until(lambda: fx.live_connection_count() == 0, 10.0)
+    serials = [x for t in ths for x in t.serials]
+    fx.wait_until(lambda: all(hook_count(fx, sn) >= 1 for sn, _, _ in serials), 10.0)
+    time.sleep(0.01)
+    for t in ths:
+        for i in range(len(t.plan)):
+            rec.case(("churn", core.h64(repr(plans)), t.name, i, fx.servertype, sername), sample=pay if rec.evaluations % 400 == 0 else None)
+    for kind, text in fixture.take_faults():
+        if kind == "thread-exception":
+            rec.violation("server-thread-fault", text, pay)
+            return False
+    if not quiet:
+        rec.violation("slot-not-released", "after %d connections opened and ended by %d concurrent clients, %s worker/selector slot(s) stay occupied for 10 s although no connection is open" % (
+            len(serials), nthreads, fx.live_connection_count()), pay)
+        return False
+    if fx.servertype == "thread":
+        pool = fx.pool()
+        dead = [w for w in list(pool.busy) + list(pool.idle) if w.ident is not None and not w.is_alive()]
+        if dead:
+            rec.violation("dead-worker-in-pool", "%d worker thread(s) that have exited are still accounted for in the pool (busy=%d idle=%d)" % (len(dead), len(pool.busy), len(pool.idle)), pay)
+            return False
+    for sn, ntrack, ending in serials:
+        hc = hook_count(fx, sn)
+        ent = world.entry(sn)
+        closes = [res.closed for res in ent["tracked"]]
+        if hc != 1:
+            rec.violation("disconnect-hook-count" if hc else "disconnect-hook-not-called", "churn: disconnect hook called %d times for connection %d (ended by %s)" % (hc, sn, ending), pay)
+            return False
+        if any(n != 1 for n in closes):
+            rec.violation("tracked-resource-close-count", "churn: resources tracked on connection %d (ended by %s) were closed %r times" % (sn, ending, closes), pay)
+            return False
+        if ent["conn"] is not None and not sock_closed(ent["conn"]):
+            rec.violation("server-socket-not-closed", "churn: server-side socket of connection %d still open" % sn, pay)
+            return False
+        ent["conn"] = None
+        rec.count("churn_connections_checked")
+    for t in ths:
+        if t.dropped:
+            # not a clause of C13 by itself (C05/C18 territory); counted so that the evidence shows it
+            rec.count("churn_connections_dropped_unanswered", len(t.dropped))
+    return True
+
+
 def sock_closed(conn):
     try:
         return conn.sock.fileno() == -1
@@ -348,6 +442,8 @@ def plan(tier, seed):
             for rep in range(1 if tier == "quick" else 4):
                 shards.append({"servertype": st, "serializer": sername, "kind": "main", "rep": rep, "linger": 0.0 if (rep + len(sername)) % 2 else 30.0})
         shards.append({"servertype": st, "serializer": "serpent", "kind": "timeout"})
+        for rep in range(1 if tier == "quick" else 6):
+            shards.append({"servertype": st, "serializer": "marshal", "kind": "churn", "rep": rep, "histories": 25 if tier == "quick" else 400})
     return shards
 
 
@@ -368,11 +464,25 @@ def run_shard(shard, rec):
                 run_case(fx, world, c, rec, r, sername)
         finally:
             fx.stop()
-        for k in REQUIRED_REACH:
-            if k != "timeout_endings":
-                rec.count(k)
         return
-    rec.count("timeout_endings")
+    if shard["kind"] == "churn":
+        fx, world = make_env(P, shard["servertype"], 0.0, 30.0, pool=(1, 12))
+        try:
+            yieldinj.enable(("Pyro5/svr_threads.py", "Pyro5/svr_multiplex.py", "Pyro5/socketutil.py"), 0.05, rec.seed * 13 + shard["rep"])
+            for h in range(shard["histories"]):
+                if rec.should_stop():
+                    break
+                if not run_churn(fx, world, rec, r, sername, r.randrange(2, 5), r.randrange(3, 9)):
+                    break
+                if not fx.loop_alive():
+                    rec.violation("daemon-loop-died", "request loop stopped: %r" % (fx.loop_exc,), None)
+                    break
+            n, lines = yieldinj.disable()
+            rec.count("injected_yields", n)
+        finally:
+            yieldinj.disable()
+            fx.stop()
+        return
     fx, world = make_env(P, shard["servertype"], 0.0, shard.get("linger", 30.0))
     try:
         ser = P.serializers.serializers[sername]
@@ -400,6 +510,18 @@ def replay(payload, rec):
     c = dict(payload)
     st = c.pop("servertype")
     sername = c.pop("serializer")
+    if "churn" in c:
+        # free-running threads: the recorded plans are re-run (with yield injection) until the violation shows again or 60 attempts held
+        fx, world = make_env(P, st, 0.0, 30.0, pool=(1, 12))
+        try:
+            yieldinj.enable(("Pyro5/svr_threads.py", "Pyro5/svr_multiplex.py", "Pyro5/socketutil.py"), 0.05, 1)
+            for _ in range(60):
+                if not run_churn(fx, world, rec, gen.rng(0, "replay"), sername, 0, 0, plans=[[tuple(x) for x in pl] for pl in c["churn"]]):
+                    break
+        finally:
+            yieldinj.disable()
+            fx.stop()
+        return
     ct = c.pop("commtimeout", 0.0)
     fx, world = make_env(P, st, ct, c.pop("linger", 30.0))
     try:
